@@ -206,6 +206,9 @@ def extract(docs_dir: Path | None = None) -> dict:
     files = sorted(docs_dir.glob("*-linter.md"))
     if not files:
         unknown.append(f"no *-linter.md under {docs_dir}")
+    for stem in LINTERS:
+        if not (docs_dir / f"{stem}-linter.md").exists():
+            unknown.append(f"{stem}-linter.md is missing")
     for f in files:
         stem = f.name[:-len("-linter.md")]
         if stem in NO_CODE_DOCS:
